@@ -3,14 +3,18 @@ open TruthModel.C14
 #print axioms label_parse
 #print axioms inv_default
 #print axioms defineFlag_inv
-#print axioms inv_not_preserved
-#print axioms inv_not_preserved_digit
+#print axioms defineFromMapfile_inv
+#print axioms reachable_inv
+#print axioms label_parse_reachable
+#print axioms label_parse_mapfile
+#print axioms dup_name_rejected
 #print axioms ranges_cover
 #print axioms selArg_flat
+#print axioms selArg_ok
+#print axioms selArg_stable
+#print axioms metaArg_spec
 #print axioms expand_exactly_one
-#print axioms expand_exactly_one_checked
 #print axioms checkLens_ok
-#print axioms nested_switch_wrong
-#print axioms expand_exactly_one_full_false
+#print axioms expand_exactly_one_full
 #print axioms explicitCases_spec
 #print axioms assign_exactly_one
